@@ -39,10 +39,13 @@ class Ids:
         return self.n
 
 
-def _pick_unique(rng, pool, used, k):
+def _pick_unique(rng, pool, used, k, prefer=()):
     out = []
     cands = [n for n in pool]
     rng.shuffle(cands)
+    if prefer:
+        first = [n for n in cands if n.lower() in prefer]
+        cands = first + [n for n in cands if n.lower() not in prefer]
     for n in cands:
         if len(out) >= k:
             break
@@ -59,7 +62,9 @@ def gen_A(rng, knobs=None):
     display = knobs.get("display") or rng.choice(DISPLAYS)
     internals = knobs.get("proc_internals", rng.random() < 0.2)
     mods = []
+    seen_names = set()          # with the "clash" knob later modules reuse the names of earlier ones
     for mname in _pick_unique(rng, MOD_NAMES, set(), nmod):
+        prefer = seen_names if knobs.get("clash") else ()
         default = rng.choice(["public", "public", "private"])
         m = {"id": ids(), "kind": "module", "name": mname, "perm": default, "kids": []}
         used = set()
@@ -67,7 +72,7 @@ def gen_A(rng, knobs=None):
         def perm():
             return rng.choice(["public", "public", "private", default])
         procs = []
-        for n in _pick_unique(rng, PROC_NAMES, used, rng.choice([0, 1, 2, 3])):
+        for n in _pick_unique(rng, PROC_NAMES, used, rng.choice([1, 2, 3] if prefer or knobs.get('clash') else [0, 1, 2, 3]), prefer):
             p = {"id": ids(), "kind": rng.choice(["function", "subroutine"]), "name": n, "perm": perm(), "kids": []}
             if rng.random() < 0.35:
                 for ln in _pick_unique(rng, LOCAL_NAMES, set(), rng.choice([1, 2])):
@@ -83,7 +88,7 @@ def gen_A(rng, knobs=None):
         subs = [p for p in procs if p["kind"] == "subroutine"]
         funs = [p for p in procs if p["kind"] == "function"]
         types = []
-        for n in _pick_unique(rng, TYPE_NAMES, used, rng.choice([0, 1, 2])):
+        for n in _pick_unique(rng, TYPE_NAMES, used, rng.choice([1, 2] if prefer or knobs.get('clash') else [0, 1, 2]), prefer):
             t = {"id": ids(), "kind": "type", "name": n, "perm": perm(), "kids": []}
             for cn in _pick_unique(rng, COMP_NAMES, set(), rng.choice([0, 1, 2, 3])):
                 t["kids"].append({"id": ids(), "kind": "var", "name": cn,
@@ -96,7 +101,7 @@ def gen_A(rng, knobs=None):
                                       "impl": rng.choice(subs)["name"]})
             types.append(t)
         gens = []
-        for n in _pick_unique(rng, GEN_NAMES, used, rng.choice([0, 0, 1, 2])):
+        for n in _pick_unique(rng, GEN_NAMES, used, rng.choice([0, 0, 1, 2]), prefer):
             pool = subs if (subs and (not funs or rng.random() < 0.5)) else funs
             if not pool:
                 continue
@@ -106,11 +111,16 @@ def gen_A(rng, knobs=None):
         for n in _pick_unique(rng, ABS_NAMES, used, rng.choice([0, 0, 1])):
             absints.append({"id": ids(), "kind": "absint", "name": n, "perm": perm(), "kids": []})
         vars_ = []
-        for n in _pick_unique(rng, VAR_NAMES, used, rng.choice([0, 1, 2, 3])):
+        for n in _pick_unique(rng, VAR_NAMES, used, rng.choice([0, 1, 2, 3]), prefer):
             vars_.append({"id": ids(), "kind": "var", "name": n,
                           "perm": rng.choice(["public", "private", "protected", default]), "kids": []})
         m["kids"] = vars_ + types + absints + gens + procs
         rng.shuffle(m["kids"])
+        seen_names |= {e["name"].lower() for e in m["kids"]}
+        if knobs.get("clash"):
+            for e in m["kids"]:
+                if e["kind"] in ("type", "function", "subroutine") and rng.random() < 0.8:
+                    e["perm"] = "public"
         mods.append(m)
     top = []
     if rng.random() < 0.3:
@@ -284,16 +294,17 @@ def gen_B(rng, A, doc_refs):
         for am in rng.sample(amods, k=min(len(amods), rng.choice([1, 1, 2]))):
             if clash_mod and am["name"].lower() == clash_mod.lower():
                 continue
-            imps = [e for e in am["kids"] if importable(e)]
+            allimps = [e for e in am["kids"] if importable(e)]
             taken = {n.lower() for u in bm["uses"] for n in u["names"]}
-            imps = [e for e in imps if e["name"].lower() not in taken]
-            if imps and rng.random() < 0.8:
+            imps = [e for e in allimps if e["name"].lower() not in taken]
+            clash = len(imps) != len(allimps)
+            if imps and (clash or rng.random() < 0.8):
                 chosen = rng.sample(imps, k=rng.choice(range(1, len(imps) + 1)))
                 only = True
+            elif clash:
+                continue
             else:
                 chosen, only = imps, False
-            if not only and any(e["name"].lower() in taken for e in imps):
-                continue
             bm["uses"].append({"amod": am, "only": only, "ents": chosen, "names": [e["name"] for e in chosen]})
         imported = [(u["amod"], e) for u in bm["uses"] for e in u["ents"]]
         ti = 0
